@@ -1,7 +1,133 @@
-(* C13 — a successful sync makes the destination a superset and touches nothing else. *)
-From SV Require Import Base Json Canon Sync SyncObs CorrC13 C13Proofs.
+(* C13 — a successful sync makes the destination a superset and touches nothing else.
+   Statements only; the proofs are in SV.SyncProofs / SyncDocProofs / SyncTopProofs / C13Proofs.
+   The model is SV.Sync (sync.py path by path, defects included; [cfg] switches each defect). *)
+From SV Require Import C13Proofs SyncWitness.
 
-Theorem C13_sync_src_unchanged : forall frepr cf o en src dst,
-  ob_src (model_call frepr cf o en src dst) = src.
-Proof. exact run_sync_src_untouched. Qed.
+(* sync_src_unchanged — the source project is byte-identical: no step of the model writes below it
+   (every entry point, every outcome, sequential or pooled, any repair state of the code) *)
+Theorem C13_sync_src_unchanged : forall frepr all cf i,
+  ob_src (c_obs (model_case_gen frepr all cf i)) = i_src i.
+Proof. exact model_case_src_untouched. Qed.
 Print Assumptions C13_sync_src_unchanged.
+
+(* sync_dst_only_unchanged (files): whatever exists in the destination job and not in the source job —
+   a file or directory at any depth — is the same node after the file walk, also when the call ends in an
+   exception *)
+Theorem C13_sync_dst_only_unchanged : forall frepr cf p fuel o deep sdir ddir subdir,
+  wf_node (Dir sdir) = true ->
+  lookup_path p (Dir sdir) = None -> lookup_path p (Dir ddir) <> None ->
+  lookup_path p (Dir (fst (sync_ws frepr cf fuel o deep sdir ddir subdir))) = lookup_path p (Dir ddir).
+Proof. exact ws_dst_only. Qed.
+Print Assumptions C13_sync_dst_only_unchanged.
+
+(* sync_dst_only_unchanged (document keys): ByKey (any key strategy, dry or real, any outcome) leaves every
+   key that exists only in the destination document alone, at every nesting depth *)
+Theorem C13_dst_only_document_keys : forall cf ks sv, wf sv = true -> forall dv root dry sk, wf dv = true ->
+  keys_kept sv dv (fst (fst (bykey cf ks sv dv root dry sk))) = true.
+Proof. exact bykey_keys_kept. Qed.
+Print Assumptions C13_dst_only_document_keys.
+
+(* jobs that are outside the selection or absent from the source are not created / modified *)
+Theorem C13_other_jobs_untouched : forall frepr cf all o src dst id,
+  job_selected o id = false \/ alookup id (p_ws src) = None ->
+  alookup id (p_ws (fst (sync_projects_m frepr cf all o src dst))) = alookup id (p_ws dst).
+Proof. exact selection_respected. Qed.
+Print Assumptions C13_other_jobs_untouched.
+
+(* the state point file of an existing destination job is never touched *)
+Theorem C13_statepoint_untouched : forall frepr cf o deep fp sdir ddir dsp d' e,
+  (forall es, alookup FN_SP ddir <> Some (Dir es)) ->
+  sync_jobs_m frepr cf o deep fp (Some sdir) (Some ddir) dsp = (Some d', e) ->
+  alookup FN_SP d' = alookup FN_SP ddir.
+Proof. exact statepoint_untouched. Qed.
+Print Assumptions C13_statepoint_untouched.
+
+(* sync_superset (existing job): after a successful real run every source file that was absent from the
+   destination is present byte-identically with a fresh mtime — at the top level always, below it when
+   recursive — provided no name on its path is excluded or on filecmp's ignore list.
+   With fix_ignore the last side condition is vacuous; for /repo as it is the statement without it is false:
+   C13_sync_superset_refuted_* *)
+Theorem C13_sync_superset_partial : forall frepr cf p fuel o deep sdir ddir subdir d' c m,
+  wf_node (Dir sdir) = true -> o_dry_run o = false ->
+  sync_ws frepr cf fuel o deep sdir ddir subdir = (d', None) ->
+  lookup_path p (Dir sdir) = Some (File c m) -> absent_in p ddir = true ->
+  (o_recursive o = true \/ length p = 1%nat) ->
+  forallb (fun k => negb (ignored cf k)) p = true ->
+  clear_path cf o p = true ->
+  lookup_path p (Dir d') = Some (File c NOW).
+Proof. exact ws_superset. Qed.
+Print Assumptions C13_sync_superset_partial.
+
+(* full statement for the repaired comparison: no side condition on ignored names *)
+Theorem C13_sync_superset : forall frepr cf, fix_ignore cf = true ->
+  forall p fuel o deep sdir ddir subdir d' c m,
+  wf_node (Dir sdir) = true -> o_dry_run o = false ->
+  sync_ws frepr cf fuel o deep sdir ddir subdir = (d', None) ->
+  lookup_path p (Dir sdir) = Some (File c m) -> absent_in p ddir = true ->
+  (o_recursive o = true \/ length p = 1%nat) -> clear_path cf o p = true ->
+  lookup_path p (Dir d') = Some (File c NOW).
+Proof. exact ws_superset_fixed. Qed.
+Print Assumptions C13_sync_superset.
+
+Theorem C13_sync_superset_refuted_default_ignores :
+  exists i, ob_exn (c_obs (model_case nofl cfg_current i)) = None
+            /\ superset nofl i (c_obs (model_case nofl cfg_current i)) = false
+            /\ holds_C13 nofl (model_case nofl cfg_fixed i) = true.
+Proof. exists wit_C13_w1. exact w1_C13_facts. Qed.
+Print Assumptions C13_sync_superset_refuted_default_ignores.
+
+Theorem C13_sync_superset_refuted_implicit_patterns :
+  exists i, ob_exn (c_obs (model_case nofl cfg_current i)) = None
+            /\ superset nofl i (c_obs (model_case nofl cfg_current i)) = false
+            /\ holds_C13 nofl (model_case nofl cfg_fixed i) = true.
+Proof. exists wit_C13_w2. exact w2_C13_facts. Qed.
+Print Assumptions C13_sync_superset_refuted_implicit_patterns.
+
+(* sync_superset (new job): a job missing in the destination is cloned whole — every path of the source job
+   (sub-directories included, whatever `recursive` says) leads to the same bytes *)
+Theorem C13_cloned_job_exact : forall frepr cf o id sd ws p,
+  o_dry_run o = false -> alookup id ws = None ->
+  fix_excl cf = false \/ forallb (fun k => negb (clone_excl o k)) p = true ->
+  lookup_path (id :: p) (Dir (fst (clone_or_sync frepr cf o (id, Dir sd) ws)))
+  = match lookup_path p (Dir sd) with
+    | Some y => Some (touch (if fix_excl cf then prune (clone_excl o) y else y))
+    | None => None
+    end.
+Proof. exact clone_paths. Qed.
+Print Assumptions C13_cloned_job_exact.
+
+(* every selected job of a successful project-level run is processed as the job-level code would, on the
+   workspace entry it had before the call *)
+Theorem C13_selected_jobs_processed : forall frepr cf o jobs ws id sdir,
+  NoDup (map fst jobs) -> In (id, Dir sdir) jobs ->
+  snd (run_steps (clone_or_sync frepr cf o) jobs ws) = None ->
+  alookup id (fst (run_steps (clone_or_sync frepr cf o) jobs ws))
+  = alookup id (fst (clone_or_sync frepr cf o (id, Dir sdir) ws))
+  /\ snd (clone_or_sync frepr cf o (id, Dir sdir) ws) = None.
+Proof. exact project_job_result. Qed.
+Print Assumptions C13_selected_jobs_processed.
+
+(* sync_idempotent: repeating a successful real file walk changes nothing and succeeds *)
+Theorem C13_sync_idempotent : forall frepr cf fuel o deep sdir ddir subdir d',
+  wf_node (Dir sdir) = true -> o_dry_run o = false -> (depth (Dir sdir) < fuel)%nat ->
+  sync_ws frepr cf fuel o deep sdir ddir subdir = (d', None) ->
+  sync_ws frepr cf fuel o deep sdir d' subdir = (d', None).
+Proof. exact ws_idempotent. Qed.
+Print Assumptions C13_sync_idempotent.
+
+(* licence for the correspondence: on every well-formed input (directory names distinct at every level) the
+   observation the model predicts satisfies the source-unchanged clause of the oracle *)
+Theorem C13_model_holds : forall frepr cf i, wf_project (i_src i) = true ->
+  let c := model_case frepr cf i in
+  ob_rest_ok (c_obs c) = true /\ proj_eqb frepr (i_src i) (ob_src (c_obs c)) = true.
+Proof. exact model_holds_C13. Qed.
+Print Assumptions C13_model_holds.
+
+(* non-vacuity: the hypotheses of the theorems are satisfiable — the corpus witness w1 is a well-formed pair
+   on which a real run of the model succeeds and copies nothing it should not *)
+Example C13_example :
+  let i := wit_C13_w2 in
+  forallb (fun kn => wf_node (snd kn)) (p_ws (i_src i)) = true
+  /\ ob_exn (c_obs (model_case nofl cfg_fixed i)) = None
+  /\ holds_C13 nofl (model_case nofl cfg_fixed i) = true.
+Proof. vm_compute. repeat split. Qed.
